@@ -198,7 +198,7 @@ def _coincide(sizes, kind):
     return any(sizes[o] == sizes[kind] for o in order[:order.index(kind)])
 
 
-def make_idw(oid, k, power, lead, tiers=("quick", "thorough"), cost=3):
+def make_idw(oid, k, power, lead, tiers=("quick", "thorough"), cost=3, dtype="float"):
     gname, kind, remap_to = "mixed", "n_node", "face centers"
     rows, n_node = GRIDS[gname]
     L = n_node
@@ -208,7 +208,8 @@ def make_idw(oid, k, power, lead, tiers=("quick", "thorough"), cost=3):
 
     def setup(ctx):
         ctx.const("k", k); ctx.const("power", power); ctx.const("lead", list(lead))
-        vals = [z3.Real(f"v_{i}") for i in range(nlead * L)]
+        ctx.const("dtype", dtype)
+        vals = [(z3.Int if dtype == "int" else z3.Real)(f"v_{i}") for i in range(nlead * L)]
         for x in vals:
             ctx.solver.add(x >= -9, x <= 9)
         ctx.eng.declare("vals", vals)
@@ -221,7 +222,9 @@ def make_idw(oid, k, power, lead, tiers=("quick", "thorough"), cost=3):
             src, dst = _grids(gname)
             U = w.get("uxarray.core.dataarray", "UxDataArray")
             dims = [f"d{i}" for i in range(len(lead))] + [kind]
-            da = U(symnp.SArr.new([mk(v) for v in vals], shape, None, symnp.float64), dims=dims, uxgrid=src, name="t")
+            da = U(symnp.SArr.new([mk(v) for v in vals], shape, None, symnp.int64 if dtype == "int" else symnp.float64), dims=dims, uxgrid=src, name="t")
+            if dtype == "int":
+                vals = [z3.ToReal(v) for v in vals]
             out = da.remap.inverse_distance_weighted(dst, remap_to=remap_to, coord_type="spherical", power=power, k=k)
             tree = src._ball_tree._current_tree()
             _, X, k_, d0, idx = tree.queries[-1]
@@ -290,6 +293,13 @@ def make_idw(oid, k, power, lead, tiers=("quick", "thorough"), cost=3):
             c = ux.UxDataArray(np.full(n, 3.5), dims=["n_node"], uxgrid=src, name="c").remap.inverse_distance_weighted(src, remap_to="nodes", coord_type=coord, power=power, k=k).values
             if not np.allclose(c, 3.5):
                 return f"IDW({coord}) does not reproduce a constant field: {c.tolist()}"
+            if dtype == "int":
+                iv = np.array([int(x) for x in v["vals"]][:n], dtype=np.int64)
+                for data in (iv, np.full(n, 7, dtype=np.int64), np.arange(n, dtype=np.int32) * 3 - 5):
+                    a = np.asarray(ux.UxDataArray(data, dims=["n_node"], uxgrid=src, name="i").remap.inverse_distance_weighted(src, remap_to="nodes", coord_type=coord, power=power, k=k).values, dtype=float)
+                    b = np.asarray(ux.UxDataArray(data.astype(float), dims=["n_node"], uxgrid=src, name="f").remap.inverse_distance_weighted(src, remap_to="nodes", coord_type=coord, power=power, k=k).values, dtype=float)
+                    if not np.allclose(a, b, rtol=0, atol=1e-9):
+                        return f"IDW({coord}, power={power}, k={k}) of integer data {data.tolist()} gives {a.tolist()}, the weighted means are {b.tolist()}"
         return None
 
     return Obligation(oid, f"inverse_distance_weighted remap, k={k}, power={power}, leading dims {tuple(lead)}: convex combination with weights non-increasing in distance", setup, run, replay,
@@ -298,7 +308,8 @@ def make_idw(oid, k, power, lead, tiers=("quick", "thorough"), cost=3):
 
 
 def obligations(tier):
-    obs = []
+    _extra_idw = [make_idw("C12.idw.k2.p1.int", 2, 1, (), dtype="int", cost=3)]
+    obs = list(_extra_idw)
     for kind, remap_to, coord, lead in (("n_node", "face centers", "spherical", ()), ("n_face", "nodes", "cartesian", (2,)), ("n_edge", "edge centers", "spherical", ()),
                                         ("n_face", "face centers", "spherical", (2, 2)), ("n_node", "edge centers", "cartesian", ())):
         obs.append(make_nn(f"C12.nn.mixed.{kind[2:]}.{remap_to.split()[0]}.{coord[:3]}", "mixed", kind, remap_to, coord, lead))
